@@ -522,6 +522,7 @@ func (r *runner) runBlock(steps []Step) {
 		r.res.Stats["probe.block_answers_not_serializable"]++
 		r.res.Triggers["block_answers_not_serializable:"+strings.Join(kinds, "+")]++
 		r.desync = true
+		r.doubleSuccess(reqs, kinds)
 		for _, q := range reqs {
 			if q.closes || q.p == nil || q.p.RID == 0 || q.c.Ended() {
 				continue
@@ -545,6 +546,9 @@ func (r *runner) runBlock(steps []Step) {
 		r.checkState(&Outcome{Kind: "block"})
 		r.inBlock = false
 		r.annotateBlock(kinds, reqs, "no serial order explains the answers")
+		if r.sc.Family == "grid" {
+			r.checkGrid(&steps[0], reqs[0].c)
+		}
 		return
 	}
 	// adopt the order that explains the observations best
@@ -575,6 +579,9 @@ func (r *runner) runBlock(steps []Step) {
 	r.inBlock = true
 	r.checkState(blk)
 	r.inBlock = false
+	if r.sc.Family == "grid" {
+		r.checkGrid(&steps[0], reqs[0].c)
+	}
 	r.annotateBlock(kinds, reqs, fmt.Sprintf("order %v explains the answers", best.order))
 	for _, q := range reqs {
 		if q.closes || q.c.Ended() {
@@ -732,9 +739,76 @@ func (r *runner) annotateBlock(kinds []string, reqs []*blockReq, note string) {
 		}
 		who := strings.TrimSuffix(strings.Fields(v.Detail + " x")[0], "'s")
 		mark := ""
-		if joiners[who] && strings.HasPrefix(v.Rule, "view-") {
-			mark = " [observer joined during the block]"
+		if joiners[who] && strings.HasPrefix(v.Rule, "view-") && r.relayBeforeState(who) {
+			// the known stale-snapshot window: the change the view misses *was* relayed to the
+			// joiner, but ahead of the SESSION_STATE that then overwrote it
+			mark = " [observer joined during the block and was relayed a change ahead of its SESSION_STATE]"
 		}
 		v.Detail = fmt.Sprintf("after concurrent block %v (%s): %s%s", kinds, note, v.Detail, mark)
+	}
+	// a departure in the block: ghosts in a view are departure clean-up that was not relayed
+	departs := false
+	for _, q := range reqs {
+		if q.closes || q.st.Op == "join" {
+			departs = true
+		}
+	}
+	if departs {
+		for _, v := range r.res.Violations {
+			if v.Step == r.stepIdx && v.Prop == "C01" && (v.Rule == "view-participants" || v.Rule == "view-entities") && !strings.Contains(v.Detail, "ahead of its SESSION_STATE") {
+				r.violate(Violation{Prop: "C06", Rule: "leave-relay-count", Detail: v.Detail})
+				break
+			}
+		}
+	}
+}
+
+// relayBeforeState: in its current window the client received a relay of someone else's change
+// before the SESSION_STATE of its join.
+func (r *runner) relayBeforeState(label string) bool {
+	for _, c := range r.clients {
+		if c.Label != label {
+			continue
+		}
+		for _, m := range c.Since() {
+			switch m.Type {
+			case 2:
+				return false
+			case 5, 7, 10, 13, 15, 26, 29, 31, 103, 203:
+				return true
+			}
+		}
+	}
+	return false
+}
+
+// doubleSuccess: two requests of one block that cannot both succeed under any order did.
+func (r *runner) doubleSuccess(reqs []*blockReq, kinds []string) {
+	adds := map[CKey][]string{}
+	removal := false
+	for _, q := range reqs {
+		if q.closes || q.st.Op == "entity_delete" || q.st.Op == "comp_delete" || q.st.Op == "join" {
+			removal = true
+		}
+		if q.p == nil {
+			continue
+		}
+		if a, ok := q.p.Req.(*hagallpb.EntityComponentAddRequest); ok {
+			if findByRID(q.c.Since(), q.p.RID, 25) != nil {
+				k := CKey{a.EntityComponentTypeId, a.EntityId}
+				adds[k] = append(adds[k], q.c.Label)
+			}
+		}
+	}
+	if removal {
+		return
+	}
+	for k, who := range adds {
+		if len(who) > 1 {
+			d := fmt.Sprintf("concurrent block %v: component %v was added successfully by %v at the same time (only once per (type, entity))", kinds, k, who)
+			r.v("C12", "add-outcome", "%s", d)
+			r.v("C09", "block-double-success", "%s", d)
+			r.v("C04", "answer-wrong-outcome", "%s", d)
+		}
 	}
 }
